@@ -477,7 +477,10 @@ class TDict(Ty):
         return self.dt.accessor(0, 2)(t)
 
     def wf(self, t):
-        return [self.size(t) >= 0]
+        # the ghost size is the number of keys: in particular no key is present when it is 0
+        k = z3.Const(fresh_name("wk"), self.key.sort())
+        return [self.size(t) >= 0,
+                z3.ForAll([k], z3.Implies(z3.Select(self.dom(t), k), self.size(t) > 0), patterns=[z3.Select(self.dom(t), k)])]
 
     def empty(self):
         return self.mk(z3.K(self.key.sort(), z3.BoolVal(False)),
